@@ -21,9 +21,11 @@ TRUSTED_BASE = TRUSTED + [
     "translator tools/gen_schema.py: spowtd/schema.sql as parsed by SQLite itself (PRAGMA table_info / index_list / "
     "foreign_key_list; CHECK clauses and view bodies cut from the stored CREATE text) -> lean/SchemaTie/Generated.lean; "
     "the declarations the proofs assume are re-checked by `rfl` on every run (SchemaTie/Classify.lean)",
+    "translator tools/gen_formulas.py: the arithmetic of the named source functions (an expression, or a whole body of assignments, if and return) as Python's own `ast` parses it -> Lean terms over the carrier class in lean/FormulaTie/Gen*.lean; that each is the model's definition is re-checked by `rfl` / a short unfolding on every run (lean/FormulaTie/*.lean)",
 ]
 SCHEMA_TIE = ('Classify',)
 SQL_TIE = ('classify',)
+FORMULA_TIE = ('Classify',)
 ASSUMPTIONS = ASSUME + ["SQLite's SUM is compared with the exact rational sum within 1e-9 relative"]
 RULE = ("as C01, plus every boolean vector up to length 10 (quick) / 14 (thorough) through "
         "classify.get_true_interval_masks against the model's trueRuns; boundary stream with intensities and "
